@@ -1,6 +1,19 @@
 """Generator of mp.scope ops (token documents + request histories) shared by C03, C05, C10."""
 
-TYS = ["i", "b", "s", "d", "n"]
+TYS = ["i", "b", "s", "d", "n", "x"]          # x = CBinTimestamp target
+
+# timestamps stay within the timestamp 32 / timestamp 64 layouts (0 <= sec < 2^34): the 96-bit layout is the recorded
+# C07 class ts96-seconds-first-read
+TS_SECS = [0, 1, 5, 1700000000, 2 ** 32 - 1, 2 ** 32, 2 ** 34 - 1]
+TS_NS = [0, 0, 1, 123456789, 999999999]
+EXT_LENS = [0, 1, 2, 3, 4, 5, 8, 9, 16, 17, 255, 256, 300]
+EXT_TYPES = [0, 1, 5, 42, 127, -128, -2]
+BIN_LENS = [0, 1, 5, 300]
+BIG_INTS = [2 ** 63 - 1, 2 ** 63, 2 ** 64 - 1]
+
+
+def rand_ts(rng):
+    return "T%d:%d" % (rng.choice(TS_SECS), rng.choice(TS_NS))
 
 
 def hexb(bs):
@@ -9,7 +22,10 @@ def hexb(bs):
 
 def rand_key(rng, used):
     while True:
-        if rng.random() < 0.75:
+        r = rng.random()
+        if r < 0.08:
+            k = rand_ts(rng)
+        elif r < 0.77:
             k = "s" + hexb([rng.choice(b"abcdefgxyz_0123") for _ in range(rng.choice([1, 1, 2, 3, 8]))])
         else:
             k = "i" + str(rng.choice([0, 1, 2, 5, 127, 128, 255, 256, 70000, -1, -32, -33, -200, 65535, 2 ** 31 - 1, 2 ** 31, 2 ** 32 - 1,
@@ -21,7 +37,16 @@ def rand_key(rng, used):
 
 def rand_scalar(rng):
     r = rng.random()
-    if r < 0.35:
+    if r < 0.07:
+        # ext values of any type / length (fixext 1/2/4/8/16, ext 8, ext 16): they must be skipped header + payload
+        ln = rng.choice(EXT_LENS)
+        return "x%d:%s" % (rng.choice(EXT_TYPES), hexb([rng.randrange(256) for _ in range(ln)])), "X"
+    if r < 0.14:
+        return rand_ts(rng), "x"
+    if r < 0.17:
+        # integers at the edge of int64: 2^63 and above do not fit the int64 target (overflow)
+        return "i%d" % rng.choice(BIG_INTS), "I"
+    if r < 0.40:
         return "i" + str(rng.choice([0, 1, 7, 127, 128, 255, 256, 65535, 65536, 2 ** 31, 2 ** 40, -1, -32, -33, -129, -40000, -2 ** 33, rng.randrange(-1000, 1000)])), "i"
     if r < 0.5:
         return rng.choice(["t", "f"]), "b"
@@ -30,9 +55,7 @@ def rand_scalar(rng):
         return "s" + hexb([rng.randrange(32, 127) for _ in range(ln)]), "s"
     if r < 0.85:
         return "d" + "%016x" % rng.choice([0, 0x3ff0000000000000, 0xc00921fb54442d18, 0x7ff0000000000000]), "d"
-    if r < 0.93:
-        return "n", "n"
-    return "b" + hexb([rng.randrange(256) for _ in range(rng.choice([0, 1, 5]))]), "x"
+    return "n", "n"
 
 
 class Node:
@@ -44,8 +67,20 @@ class Node:
         self.entries = entries or []
 
 
+def rand_bin(rng):
+    bs = [rng.randrange(256) for _ in range(rng.choice(BIN_LENS))]
+    if bs and rng.random() < 0.3:
+        # payload bytes that look like MessagePack headers: a reader left inside the payload would follow them
+        bs = [rng.choice([0xC4, 0x92, 0x81, 0xA3, 0xC0, 0xD6, 0xFF, 0x01]) for _ in bs]
+    node = Node("bin", ["b" + hexb(bs)])
+    node.bytes = bs
+    return node
+
+
 def rand_value(rng, depth):
     r = rng.random()
+    if r < 0.12:
+        return rand_bin(rng)
     if depth <= 0 or r < 0.6:
         t, ty = rand_scalar(rng)
         return Node("sc", [t], ty=ty)
@@ -99,8 +134,37 @@ def other_ty(rng, ty):
     loads booleans into integer targets and 0/1 into bool targets: that is C04/C07 territory)"""
     if ty in TYS and rng.random() < 0.8:
         return ty
+    if ty == "I":
+        return rng.choice(["i", "i", "b", "s"])          # at the edge of int64: as int, as bool, as string
     excl = {"i": ("b",), "b": ("i",)}.get(ty, ())
     return rng.choice([t for t in TYS if t not in excl])
+
+
+def bin_reqs(rng, node, ctx):
+    """requests inside a binary scope (without the open/close): read fully / partly / not at all; IsEnd anywhere;
+    sometimes one read past the end (OutOfRange: the run ends)"""
+    n = len(node.bytes)
+    mode = rng.random()
+    k = n if mode < 0.4 else (0 if mode < 0.55 else rng.randrange(0, n + 1))
+    reqs = []
+    for _ in range(k):
+        reqs.append("r")
+        if rng.random() < 0.05:
+            reqs.append("e")
+    if rng.random() < 0.2:
+        reqs.append("e")
+    if k == n and rng.random() < 0.08:
+        reqs.append("r")
+        ctx["stop"] = True
+    return reqs
+
+
+def not_bin_probe(rng, reqs, open_req):
+    """OpenBinaryScope on a value that is not a `bin`: answers F and must leave the value in place (and uncounted)"""
+    if rng.random() < 0.12:
+        reqs.append(open_req)
+        return True
+    return False
 
 
 def array_reqs(rng, node, ctx):
@@ -111,7 +175,15 @@ def array_reqs(rng, node, ctx):
     n = len(node.items)
     upto = n if rng.random() < 0.65 else rng.randrange(0, n + 1)
     for it in node.items[:upto]:
-        if it.kind == "sc":
+        if it.kind != "bin":
+            not_bin_probe(rng, reqs, "B")
+        if it.kind == "bin":
+            r = rng.random()
+            if r < 0.8:
+                reqs += ["B"] + bin_reqs(rng, it, ctx) + ["c"]
+            else:
+                reqs.append(rng.choice(["n=s", "n=s", "a", "n=i", "o"]))     # requested as string / as something else
+        elif it.kind == "sc":
             reqs.append("n=" + other_ty(rng, it.ty))
         elif it.kind == "arr":
             if rng.random() < 0.85:
@@ -130,7 +202,7 @@ def array_reqs(rng, node, ctx):
     if upto < n:
         pass                                            # left partly read: ~CMsgPackReadArrayScope skips the rest
     elif rng.random() < 0.1:
-        reqs.append(rng.choice(["n=i", "a", "e"]))     # one past the end -> OutOfRange / IsEnd
+        reqs.append(rng.choice(["n=i", "a", "e", "B"]))     # one past the end -> OutOfRange / IsEnd
         if reqs[-1] != "e":
             ctx["stop"] = True                          # exception: the run ends here
     return reqs
@@ -161,8 +233,16 @@ def object_reqs(rng, node, ctx):
         k = key_variant(rng, k)
         if rng.random() < 0.07:
             reqs.append("v")
+        if v is not None and v.kind != "bin" and not_bin_probe(rng, reqs, "B" + k) and rng.random() < 0.3:
+            continue                                     # … and go on with ANOTHER key: the value left in place is passed over
         if v is None:
-            reqs.append(rng.choice(["g%s=i" % k, "g%s=s" % k, "A" + k, "O" + k]))
+            reqs.append(rng.choice(["g%s=i" % k, "g%s=s" % k, "A" + k, "O" + k, "B" + k]))
+        elif v.kind == "bin":
+            r = rng.random()
+            if r < 0.8:
+                reqs += ["B" + k] + bin_reqs(rng, v, ctx) + ["c"]
+            else:
+                reqs.append(rng.choice(["g%s=s" % k, "g%s=s" % k, "A" + k, "g%s=i" % k, "O" + k]))
         elif v.kind == "sc":
             reqs.append("g%s=%s" % (k, other_ty(rng, v.ty)))
         elif v.kind == "arr":
@@ -202,10 +282,23 @@ def gen_scope_ops(tier, rng, boost=1, count=None, truncated=0.08):
             ln = rng.choice([200, 230, 240, 245, 250, 252, 253, 254, 255, 256, 257, 260, 300, 500, 510])
             toks.append("s" + hexb([0x41 + (j % 26) for j in range(ln)]))
             reqs.append("n=s")
-        root = rand_object(rng, rng.choice([0, 1, 2, 3])) if rng.random() < 0.8 else None
+        shape = rng.random()
+        root = rand_object(rng, rng.choice([0, 1, 2, 3])) if shape < 0.75 else None
         if root is not None:
             toks += root.toks
+            if rng.random() < 0.05:
+                reqs.append("B")                         # not a bin: F, the object is still the next value
             reqs += ["o"] + object_reqs(rng, root, ctx) + ["c"]
+        elif shape < 0.83:
+            # a `bin` (or, rarely, another scalar) at the root, opened as a binary scope
+            if rng.random() < 0.85:
+                b = rand_bin(rng)
+                toks += b.toks
+                reqs += (["B"] + bin_reqs(rng, b, ctx) + ["c"]) if rng.random() < 0.85 else [rng.choice(["n=s", "a", "n=x"])]
+            else:
+                t, ty = rand_scalar(rng)
+                toks.append(t)
+                reqs += ["B", "n=" + other_ty(rng, ty)]
         else:
             arr = rand_value(rng, 2)
             while arr.kind != "arr":
